@@ -2,6 +2,7 @@ package main
 
 import (
 	"fmt"
+	"math"
 	"sort"
 
 	ristretto "github.com/dgraph-io/ristretto/v2"
@@ -317,9 +318,49 @@ func c03DFSOracle(x *Exec, res *vsched.Result, job *Job) []Viol {
 	return out
 }
 
+// c03HugeSpec: "every MaxCost": the unbounded setting MaxInt64 with items of cost 2^62 - two of them
+// already exceed the capacity, and used+cost overflows int64.
+func c03HugeSpec(depth int) *SeqSpec {
+	const big = int64(1) << 62
+	alpha := []Op{{K: "set", Key: 1, Cost: big}, {K: "set", Key: 2, Cost: big}, {K: "set", Key: 3, Cost: big - 1}, {K: "del", Key: 1}, {K: "drain"}}
+	return &SeqSpec{
+		Cfg:      Cfg{NumCounters: 16, MaxCost: math.MaxInt64, BufferItems: 1, SetBuf: 3, MapOrder: "rot"},
+		MaxDepth: depth,
+		Alphabet: func(r *SeqRun) []Op { return alpha },
+		Abstract: func(r *SeqRun, ren func(int64) int64) string { return "" },
+		Probe: func(c seqCache, r *SeqRun) {
+			r.Probe["remaining"] = c.Remaining()
+			r.Probe["maxcost"] = c.MaxCost()
+		},
+		Oracle: func(r *SeqRun) []Viol {
+			var out []Viol
+			// exact arithmetic: the accounted costs must fit in MaxCost
+			room := uint64(math.MaxInt64)
+			for _, c := range r.Post.Costs {
+				if uint64(c.Cost) > room {
+					out = append(out, Viol{Key: "C03/admission-exceeds-maxcost", What: fmt.Sprintf("%d keys with costs %v are accounted: more than MaxCost = MaxInt64", len(r.Post.Costs), r.Post.Costs)})
+					break
+				}
+				room -= uint64(c.Cost)
+			}
+			if rem, ok := r.Probe["remaining"]; ok && rem < 0 && allIdle(r.Post.ClientState) && len(r.Post.SetBufItems) == 0 {
+				out = append(out, Viol{Key: "C03/negative-remaining-cost-when-drained", What: fmt.Sprintf("RemainingCost()=%d with MaxCost = MaxInt64 and costs %v", rem, r.Post.Costs)})
+			}
+			return out
+		},
+	}
+}
+
 func c03Seq(tier string) []SeqJob {
 	var out []SeqJob
-	add := func(name string, s *SeqSpec, secs float64) { out = append(out, SeqJob{Name: name, Spec: s, Seconds: secs}) }
+	add := func(name string, s *SeqSpec, secs float64) {
+		out = append(out, SeqJob{Name: name, Spec: s, Seconds: secs})
+	}
+	if tier == "quick" {
+		add("seq/maxint64/costs2^62/depth6", c03HugeSpec(6), 40)
+	} else {
+		add("seq/maxint64/costs2^62/depth9", c03HugeSpec(9), 560)
+	}
 	if tier == "quick" {
 		add("seq/unequal-costs+gets/max2/depth7", c03FromC13(c13EvictSpec(7)), 40)
 		add("seq/lean/max2/3keys/depth7", c03LeanSpec(7, 2), 40)
@@ -474,7 +515,9 @@ func c13ZeroCostSpec(depth int) *SeqSpec {
 
 func c13Seq(tier string) []SeqJob {
 	var out []SeqJob
-	add := func(name string, s *SeqSpec, secs float64) { out = append(out, SeqJob{Name: name, Spec: s, Seconds: secs}) }
+	add := func(name string, s *SeqSpec, secs float64) {
+		out = append(out, SeqJob{Name: name, Spec: s, Seconds: secs})
+	}
 	if tier == "quick" {
 		add("seq/unequal-costs+gets/max2/depth7", c13EvictSpec(7), 40)
 		add("seq/zero-costs/max2/depth6", c13ZeroCostSpec(6), 40)
@@ -686,7 +729,9 @@ func c17FromC13(s *SeqSpec) *SeqSpec {
 
 func c17Seq(tier string) []SeqJob {
 	var out []SeqJob
-	add := func(name string, s *SeqSpec, secs float64) { out = append(out, SeqJob{Name: name, Spec: s, Seconds: secs}) }
+	add := func(name string, s *SeqSpec, secs float64) {
+		out = append(out, SeqJob{Name: name, Spec: s, Seconds: secs})
+	}
 	// unequal costs and real Gets: admissions that take several victims and can still end in a
 	// rejection (the eviction metrics move although the newcomer is turned away)
 	if tier == "quick" {
